@@ -18,6 +18,7 @@ import SharkVerif.Lemmas.Peg
 import SharkVerif.Lemmas.ImportCsv
 import SharkVerif.Lemmas.ImportRt
 import SharkVerif.Lemmas.ExportFmt
+import SharkVerif.Lemmas.ExportSvm
 import SharkVerif.Model.ImportCsv
 import SharkVerif.Model.ExportFmt
 namespace SharkVerif.C19
@@ -890,6 +891,147 @@ example : importRepaired (0 : Int) some { sparse := true, cls := true, dims := 3
     [⟨-1, [(2, 7)]⟩, ⟨1, [(1, 8), (3, 9)]⟩] =
     .ok { shape := some 3, lshape := some 2, batches := [2], rows := [.sparse 3 [(1, 7)], .sparse 3 [(0, 8), (2, 9)]],
           labels := .cls [0, 1] } := by decide
+
+/-- **LibSVM round trip, regression labels, sparse or dense stored entries (token level).**  Records
+`label index+1:value …` with strictly increasing indices below `d` are read back by the importer logic as the
+same entries (a sparse row, or the dense vector they fill) with the same labels, for every batch size argument. -/
+theorem libsvm_roundtrip_sparse {V : Type} (zero : V) (labelInt : V → Option Int)
+    (pts : List (V × List (Nat × V))) (d bs limit : Nat) (sparse : Bool)
+    (hidx : ∀ p ∈ pts, strictlyIncreasing (p.2.map (·.1)) = true ∧ ∀ q ∈ p.2, q.1 < d)
+    (hlimit : sparse = true ∨ (initBatches pts.length bs).foldl max 1 * d ≤ limit) :
+    importRepaired zero labelInt { sparse := sparse, cls := false, dims := d, bs := bs, allocLimit := limit }
+        (pts.map fun p => ⟨p.1, p.2.map fun q => (q.1 + 1, q.2)⟩) =
+      .ok { shape := some d, lshape := some 1, batches := initBatches pts.length bs,
+            rows := pts.map (fun p => if sparse then Row.sparse d p.2 else Row.dense (denseRow zero d p.2)),
+            labels := .reg (pts.map fun p => [p.1]) } := by
+  have hsorted : (pts.map fun p => (⟨p.1, p.2.map fun q => (q.1 + 1, q.2)⟩ : Rec V)).all recSorted = true := by
+    rw [List.all_eq_true]; intro r hr
+    obtain ⟨p, hp, rfl⟩ := List.mem_map.mp hr
+    unfold recSorted
+    simp only [List.map_map]
+    have : ((fun (x : Nat × V) => x.1) ∘ fun (q : Nat × V) => (q.1 + 1, q.2)) = (fun n => n + 1) ∘ (fun (x : Nat × V) => x.1) := rfl
+    rw [this, ← List.map_map]
+    exact si_map (hidx p hp).1 (fun x _ y _ h => by omega)
+  have hmax : max (maxIndexLast (pts.map fun p => (⟨p.1, p.2.map fun q => (q.1 + 1, q.2)⟩ : Rec V))) d = d := by
+    apply Nat.max_eq_right
+    apply maxIndexLast_le
+    intro r hr q hq
+    obtain ⟨p, hp, rfl⟩ := List.mem_map.mp hr
+    simp only at hq
+    have hmem := List.mem_of_getLast? hq
+    obtain ⟨q', hq', rfl⟩ := List.mem_map.mp hmem
+    have := (hidx p hp).2 q' hq'
+    simp; omega
+  have hzero : hasZeroFirst (pts.map fun p => (⟨p.1, p.2.map fun q => (q.1 + 1, q.2)⟩ : Rec V)) = false := by
+    unfold hasZeroFirst
+    rw [List.any_eq_false]
+    intro r hr
+    obtain ⟨p, hp, rfl⟩ := List.mem_map.mp hr
+    cases hh : p.2 with
+    | nil => simp
+    | cons a t => simp
+  unfold importRepaired
+  simp only [hsorted, Bool.not_true, Bool.false_eq_true, if_false, Bool.false_and, hmax, hzero]
+  rw [if_neg (by omega)]
+  simp only [labelsOf, Bool.false_eq_true, if_false]
+  unfold build
+  simp only [vecSize, deltaOf, Bool.false_eq_true, if_false, Nat.add_zero, List.length_map, List.map_map]
+  rw [if_neg (by
+    rcases hlimit with h | h
+    · simp [h]
+    · simp; intro _; omega)]
+  have hw : (List.map (writes 1 ∘ fun p => (⟨p.1, p.2.map fun q => (q.1 + 1, q.2)⟩ : Rec V)) pts) = pts.map (·.2) := by
+    apply List.map_congr_left
+    intro p _
+    simp only [Function.comp, writes, List.map_map]
+    conv => rhs; rw [← List.map_id p.2]
+    apply List.map_congr_left
+    intro q _
+    simp [writeIndex]
+  rw [hw]
+  have hoob : oobOf sparse d (pts.map (·.2)) = none := by
+    apply oobOf_none
+    intro ws hws w hw'
+    obtain ⟨p, hp, rfl⟩ := List.mem_map.mp hws
+    exact (hidx p hp).2 w hw'
+  rw [hoob]
+  simp only [finish, List.map_map]
+  rfl
+
+open SharkVerif.Import.Export in
+/-- **C19, second sentence, `exportSparseData` → `importSparseData` FROM BYTES (regression labels).**  For every
+dataset of binary64 values (labels and stored entries; indices strictly increasing below `d < 2^32`; sparse or
+dense target, any batch size, `highestIndex = d`): importing the bytes the exporter wrote yields the dataset whose
+labels and entries are the values read back token by token (`readBack` of the `%.6g` token: by `real_fmtG`
+spirit's conversion of the value rounded to 6 significant digits), in the same order, same indices, same shape. -/
+theorem libsvm_export_import_bytes (pts : List RegPoint) (d bs limit : Nat) (sparse : Bool)
+    (htok : ∀ p ∈ pts, isDouble p.1.1 = true ∧ readBack (svmNum p.1.1) = some p.1.2 ∧
+      ∀ q ∈ p.2, q.1 + 1 < 4294967296 ∧ isDouble q.2.1 = true ∧ readBack (svmNum q.2.1) = some q.2.2)
+    (hidx : ∀ p ∈ pts, strictlyIncreasing (p.2.map (·.1)) = true ∧ ∀ q ∈ p.2, q.1 < d)
+    (hlimit : sparse = true ∨ (initBatches pts.length bs).foldl max 1 * d ≤ limit) :
+    Svm.importBytes { sparse := sparse, cls := false, dims := d, bs := bs, allocLimit := limit }
+        (svmRegr (pts.map fun p => (p.1.1, p.2.map fun q => (q.1, q.2.1)))) =
+      .ok { shape := some d, lshape := some 1, batches := initBatches pts.length bs,
+            rows := pts.map (fun p => if sparse then Row.sparse d (p.2.map fun q => (q.1, q.2.2))
+                                      else Row.dense (denseRow Val.zero d (p.2.map fun q => (q.1, q.2.2)))),
+            labels := .reg (pts.map fun p => [p.1.2]) } := by
+  unfold Svm.importBytes
+  rw [svmRecords_svmRegr pts htok]
+  simp only [List.map_map]
+  have h := libsvm_roundtrip_sparse Val.zero Val.toInt32 (pts.map fun p => (p.1.2, p.2.map fun q => (q.1, q.2.2))) d bs limit sparse
+    (by
+      intro p' hp'
+      obtain ⟨p, hp, rfl⟩ := List.mem_map.mp hp'
+      have := hidx p hp
+      simp only [List.map_map] at this ⊢
+      refine ⟨by simpa [Function.comp_def] using this.1, ?_⟩
+      intro q' hq'
+      obtain ⟨q, hq, rfl⟩ := List.mem_map.mp hq'
+      exact this.2 q hq)
+    (by simpa using hlimit)
+  simp only [List.map_map, List.length_map, Function.comp_def] at h ⊢
+  exact h
+
+open SharkVerif.Import.Export in
+/-- non-vacuity: a two-element dataset `(2.5; x₁ = 1, x₃ = -0.25)`, `(-inf; x₂ = 0.1)` is written as below and imported
+again (sparse, `highestIndex` 3) with every value read back exactly — all of them have at most 6 significant digits -/
+example : svmRegr [(Val.fin false 5 (-1), [(0, Val.fin false 1 0), (2, Val.fin true 1 (-2))]),
+                   (Val.inf true, [(1, Val.fin false 3602879701896397 (-55))])]
+      = "2.5 1:1 3:-0.25\n-inf 2:0.1\n".toList ∧
+    Svm.importBytes { sparse := true, cls := false, dims := 3, bs := 0, allocLimit := 0 } "2.5 1:1 3:-0.25\n-inf 2:0.1\n".toList
+      = .ok { shape := some 3, lshape := some 1, batches := [2],
+              rows := [.sparse 3 [(0, Val.fin false 1 0), (2, Val.fin true 1 (-2))],
+                       .sparse 3 [(1, Val.fin false 3602879701896397 (-55))]],
+              labels := .reg [[Val.fin false 5 (-1)], [Val.inf true]] } := by decide
+
+open SharkVerif.Import.Export in
+/-- **C19, byte-level round trip of a value in `%.<p>g` format, every binary64 value** (`exportSparseData`: `%.6g`;
+`exportCSV` with `scientific = false`: `%.10g`).  There are a mantissa `mant` and a count `z` of stripped trailing
+zeros with `mant · 10^z = ds`, `(ds, ex) = sciDigits (P-1) v` the value rounded to `P` significant digits, such
+that for everything that may follow the token (no digit, `.`, `e`, `E`) `double_` consumes exactly the token and
+returns spirit's conversion of `mant · 10^(ex-(P-1)+z)` — the same decimal.  Infinite, NaN and zero tokens:
+`real_fmtG_tok` (`Lemmas/ExportSvm.lean`), used by `libsvm_export_import_bytes`. -/
+theorem value_bytes_roundtrip_general (p0 : Nat) (neg : Bool) (m : Nat) (e2 : Int) (hm : m ≠ 0)
+    (hv : isDouble (.fin neg m e2) = true) :
+    ∃ mant z : Nat,
+      mant * 10 ^ z = (sciDigits ((if p0 = 0 then 1 else p0) - 1) (Val.fin neg m e2).ratOf.1 (Val.fin neg m e2).ratOf.2).1 ∧
+      ∀ rest : List Char, NumEnd rest → real (fmtG p0 (Val.fin neg m e2) ++ rest) = scaled neg mant
+        ((sciDigits ((if p0 = 0 then 1 else p0) - 1) (Val.fin neg m e2).ratOf.1 (Val.fin neg m e2).ratOf.2).2
+          - (((if p0 = 0 then 1 else p0) - 1 : Nat) : Int) + (z : Int)) rest :=
+  real_fmtG p0 neg m e2 hm hv
+
+open SharkVerif.Import.Export in
+/-- non-vacuity: the three layouts of `%g` — `123.5`, `0.00025`, `1e+06` -/
+example : fmtG 6 (Val.fin false 247 (-1)) = "123.5".toList ∧
+    real (fmtG 6 (Val.fin false 247 (-1)) ++ [' ']) = some (Val.fin false 247 (-1), [' ']) := by decide
+
+open SharkVerif.Import.Export in
+example : fmtG 6 (Val.fin false 15625 6) = "1e+06".toList ∧
+    real ("1e+06".toList ++ [',']) = some (Val.fin false 15625 6, [',']) := by decide
+
+open SharkVerif.Import.Export in
+example : fmtG 6 (Val.fin false 1 (-12)) = "0.000244141".toList ∧
+    (real ("0.000244141".toList ++ ['\n'])).map (·.2) = some ['\n'] := by decide
 
 /-! ## printed numbers at BYTE level: character set, and what the lexers read back -/
 
